@@ -1061,3 +1061,69 @@ silent("apply-keys-through-methodcaller", ["C01", "C03", "C10", "C13"], T,
 fire("apply-keys-methodcaller-drops-func", ["C01", "C03", "C10", "C13"], "R-KC", T,
      "        return self.evaluatable.keys(options) | self.func.keys(options)",
      "        import functools, operator\n        return functools.reduce(operator.or_, map(operator.methodcaller(\"keys\", options), (self.evaluatable,)))")
+
+# match statements (Python 3.10+) for isinstance chains
+silent("template-keys-match-statement", ["C01", "C03", "C09", "C10", "C11"], O, _TK_OLD,
+       """        match value:
+            case str():
+                return getattr(Template(value), method)(options)
+            case Mapping():
+                items = list(value.values())
+            case list():
+                items = value
+            case _:
+                return set()
+        return set().union(*(Option._template_keys(item, method, options) for item in items))""")
+fire("template-keys-match-statement-mapping-keys", ["C01", "C03", "C09"], "R-RK", O, _TK_OLD,
+     """        match value:
+            case str():
+                return getattr(Template(value), method)(options)
+            case Mapping() | list():
+                items = list(value)
+            case _:
+                return set()
+        return set().union(*(Option._template_keys(item, method, options) for item in items))""")
+silent("pipeline-add-match-statement", ["C13"], PL,
+       """        if isinstance(other, PipelineStep):
+            return Pipeline(other, self)
+        elif isinstance(other, Pipeline):
+            if other.empty:
+                return cast(Pipeline[A, C], self)
+            elif other.rest is None:
+                return Pipeline(other.tail, self)
+            return (self + other.rest) + other.tail
+        else:
+            return Pipeline(PipelineStep(Evaluatable.ensure(other)), self)""",
+       """        match other:
+            case PipelineStep():
+                return Pipeline(other, self)
+            case Pipeline() if other.empty:
+                return cast(Pipeline[A, C], self)
+            case Pipeline() if other.rest is None:
+                return Pipeline(other.tail, self)
+            case Pipeline():
+                return (self + other.rest) + other.tail
+            case _:
+                return Pipeline(PipelineStep(Evaluatable.ensure(other)), self)""")
+fire("pipeline-add-match-statement-swapped", ["C13"], "R-PI", PL,
+     """        if isinstance(other, PipelineStep):
+            return Pipeline(other, self)
+        elif isinstance(other, Pipeline):
+            if other.empty:
+                return cast(Pipeline[A, C], self)
+            elif other.rest is None:
+                return Pipeline(other.tail, self)
+            return (self + other.rest) + other.tail
+        else:
+            return Pipeline(PipelineStep(Evaluatable.ensure(other)), self)""",
+     """        match other:
+            case PipelineStep():
+                return Pipeline(other, self)
+            case Pipeline() if other.empty:
+                return cast(Pipeline[A, C], self)
+            case Pipeline() if other.rest is None:
+                return Pipeline(other.tail, self)
+            case Pipeline():
+                return (self + other.tail) + other.rest
+            case _:
+                return Pipeline(PipelineStep(Evaluatable.ensure(other)), self)""")
